@@ -408,6 +408,8 @@ class Executor:
             st.env[name] = VStr(ty[4:])
         elif ty == "func":
             st.env[name] = VFunc("param:" + name, handler=None)
+        elif ty == "dict":
+            st.env[name] = VOpaque(z3.Const(name, VOpaque.SORT))
         elif ty[0] in "fib" and ty[1:].isdigit():
             et, nd = ty[0], int(ty[1:])
             cell = "param:" + name
@@ -477,7 +479,7 @@ class Executor:
         if spec and name in ("isnan", "isfinite", "isinf", "implies", "old", "len", "abs", "min", "max", "int",
                              "float", "sqrt", "iff", "ite", "all", "any", "range", "floor", "bool", "atan", "atan2", "sin", "cos",
                              "asin", "exp", "same", "close", "pi", "nan", "inf", "array_eq", "array2", "nanmean", "nansum",
-                             "nanmin", "nanmax", "nanstd", "nanvar"):
+                             "nanmin", "nanmax", "nanstd", "nanvar", "valid_values"):
             if name == "pi":
                 self.used_axioms.add("pi")
                 return VFloat(xr.fin(xr.PI))
@@ -780,7 +782,7 @@ class Executor:
                 for c in non1[1:]:
                     if not spec and not z3.eq(c, non1[0]):
                         self.oblige(st, "shape", self.line_tag(node), c == non1[0], node, desc="operands broadcast to the same shape")
-        idx = [z3.Int(fresh_name("l")) for _ in range(nd)]
+        idx = [z3.Int("l!%d" % k) for k in range(nd)]       # canonical bound names: equal expressions give equal terms
         elems = []
         for o in operands:
             if isinstance(o, VRef):
@@ -805,6 +807,8 @@ class Executor:
 
     def array_arith(self, op, a, b, st, node, spec):
         def f(x, y):
+            if isinstance(op, (ast.BitAnd, ast.BitOr)) and isinstance(x, VBool) and isinstance(y, VBool):
+                return VBool(z3.And(x.t, y.t) if isinstance(op, ast.BitAnd) else z3.Or(x.t, y.t))
             if isinstance(op, ast.Div):
                 return VFloat(xr.div(to_float(x), to_float(y)))      # NumPy: IEEE, no exception
             if isinstance(op, ast.Pow) and isinstance(x, VFloat):
@@ -812,6 +816,8 @@ class Executor:
             return self.arith(op, x, y, st, node, True)
         ets = [st.heap[v.cell].et for v in (a, b) if isinstance(v, VRef)]
         scal = [v for v in (a, b) if not isinstance(v, VRef)]
+        if isinstance(op, (ast.BitAnd, ast.BitOr)):
+            return self.amap(st, f, [a, b], "b", node, spec)
         et = "f" if ("f" in ets or isinstance(op, ast.Div) or any(isinstance(v, VFloat) for v in scal)) else ets[0]
         return self.amap(st, f, [a, b], et, node, spec)
 
@@ -911,6 +917,8 @@ class Executor:
             if any(isinstance(e, ast.Slice) or (isinstance(e, ast.Constant) and e.value is None) for e in idx_nodes):
                 return self.slice_read(base, a, idx_nodes, st, n, spec)
             idx_vals = [self.ev(e, st, spec) for e in idx_nodes]
+            if len(idx_vals) == 1 and isinstance(idx_vals[0], VRef) and st.heap[idx_vals[0].cell].et == "b":
+                return self.mask_index(base, idx_vals[0], st, n, spec)
             if len(idx_vals) == 1 and isinstance(idx_vals[0], VTuple):
                 idx_vals = idx_vals[0].items
             if len(idx_vals) < a.ndim:
@@ -926,6 +934,31 @@ class Executor:
             idx = self.index_terms(a, idx_vals, st, n, spec)
             return self.wrap_elem(a, a.select(idx))
         raise Unsupported("subscript of %r" % (base,), n)
+
+    def mask_index(self, base, mask, st, n, spec):
+        """a[mask] for 1-D a and boolean mask: assumed NumPy contract - the result is a function of (mask, a) only,
+        with 0 <= len <= len(a); which elements survive is not modelled (uninterpreted)."""
+        a, m = st.heap[base.cell], st.heap[mask.cell]
+        if a.ndim != 1 or m.ndim != 1:
+            raise Unsupported("boolean-mask indexing of non 1-D arrays", n)
+        if not spec and not z3.eq(a.shape[0], m.shape[0]):
+            self.oblige(st, "shape", self.line_tag(n), a.shape[0] == m.shape[0], n, desc="mask has the array's length")
+        ra, rm = self.restrict(a), self.restrict(m)
+        f_el = z3.Function("np_compress_%s" % a.et, rm.sort(), ra.sort(), z3.IntSort(), arr_sort(a.et, 1))
+        f_len = z3.Function("np_compress_len_%s" % a.et, rm.sort(), ra.sort(), z3.IntSort(), z3.IntSort())
+        ln = f_len(rm, ra, a.shape[0])
+        st.assume(z3.And(ln >= 0, ln <= a.shape[0]))
+        cell = new_cell("masked")
+        st.heap[cell] = ArrData(f_el(rm, ra, a.shape[0]), [ln], a.et, frozenset(), True)
+        self.notes.append("assumed: a[mask] is a function of (mask, a), 0 <= len <= len(a)")
+        return VRef(cell)
+
+    def valid_values(self, arr, nodata, st, n, spec):
+        """spec builtin: arr[isfinite(arr) & (arr != nodata)] - built exactly like the code path builds it"""
+        fin = self.amap(st, lambda x: VBool(xr.is_fin(to_float(x))), [arr], "b", n, True)
+        ne = self.amap(st, lambda x, y: VBool(self.cmp(ast.NotEq(), x, y, n)), [arr, nodata], "b", n, True)
+        both = self.amap(st, lambda x, y: VBool(z3.And(to_bool(x), to_bool(y))), [fin, ne], "b", n, True)
+        return self.mask_index(arr, both, st, n, True)
 
     def slice_read(self, base, a, idx_nodes, st, n, spec):
         """basic slices a[lo:hi, ...] (step 1) and integer indices: a view as a lambda array.
@@ -1284,6 +1317,8 @@ class Executor:
             return VFloat(xr.atan2(to_float(args[0], n), to_float(args[1], n)))
         if b in ("nanmean", "nansum", "nanmin", "nanmax", "nanstd", "nanvar"):
             return self.call_uf("np_" + b, args, st, n)
+        if b == "valid_values":
+            return self.valid_values(args[0], args[1], st, n, spec)
         if b == "array_eq":
             da_, db_ = st.heap[args[0].cell], st.heap[args[1].cell]
             return VBool(z3.And(*([x == y for x, y in zip(da_.shape, db_.shape)] + [self.restrict(da_) == self.restrict(db_)])))
@@ -1481,8 +1516,18 @@ class Executor:
                     self.notes.append("assumed: np.linspace(-h, h, 2h+1)[i] == -h + i")
                     return VRef(cell)
                 raise Unsupported("np.linspace in a form without an assumed contract", n)
+            if fn == "sort" and isinstance(args[0], VRef) and st.heap[args[0].cell].ndim == 1 and not kwargs:
+                a = st.heap[args[0].cell]
+                cell = new_cell("sorted")
+                st.heap[cell] = ArrData(fresh_array("sorted", a.et, 1), [a.shape[0]], a.et, frozenset(), True)
+                self.notes.append("np.sort: result modelled as an arbitrary array of the same length")
+                return VRef(cell)
             if fn == "gradient" and isinstance(args[0], VRef) and len(args) == 1 and not kwargs:
                 return self.np_gradient(args[0], st, n, spec)
+            if fn in ("isnan", "isfinite", "isinf") and isinstance(args[0], VRef):
+                pred = {"isnan": lambda t: xr.is_nan(t), "isfinite": lambda t: xr.is_fin(t),
+                        "isinf": lambda t: z3.Or(xr.is_pinf(t), xr.is_ninf(t))}[fn]
+                return self.amap(st, lambda x: VBool(pred(to_float(x))), [args[0]], "b", n, spec)
             if fn in ("isnan",) and not isinstance(args[0], VRef):
                 return VBool(xr.is_nan(to_float(args[0], n)))
             if fn in ("isfinite",) and not isinstance(args[0], VRef):
@@ -1785,6 +1830,23 @@ class Executor:
     def st_Expr(self, s, st, spec):
         if isinstance(s.value, ast.Constant):
             return [st]
+        v = s.value
+        if isinstance(v, ast.Call) and isinstance(v.func, ast.Attribute) and v.func.attr == "append" and \
+                isinstance(v.func.value, ast.Subscript) and isinstance(v.func.value.value, ast.Name) and \
+                isinstance(st.env.get(v.func.value.value.id), VOpaque) and len(v.args) == 1:
+            # D[key].append(x) on an opaque dict of lists: D := append(D, key, x)   (uninterpreted update)
+            nm = v.func.value.value.id
+            key = self.ev(v.func.value.slice, st, spec)
+            val = self.ev(v.args[0], st, spec)
+            kt = key.t if isinstance(key, (VFloat, VInt)) else z3.StringVal(key.s) if isinstance(key, VStr) else None
+            vt = val.t if isinstance(val, (VFloat, VInt)) else None
+            if kt is None or vt is None:
+                raise Unsupported("dict append with key/value %r %r" % (key, val), s)
+            f = z3.Function("dict_append_%s_%s" % (kt.sort(), vt.sort()), VOpaque.SORT, kt.sort(), vt.sort(), VOpaque.SORT)
+            if nm in self.c.params and nm not in self.c.modifies:
+                self.oblige(st, "frame", "%s@%s" % (nm, self.line_tag(s)), z3.BoolVal(False), s, desc="write to parameter %s not in modifies" % nm)
+            st.env[nm] = VOpaque(f(st.env[nm].t, kt, vt))
+            return [st]
         self.ev(s.value, st, spec)
         return [st]
 
@@ -2003,6 +2065,7 @@ class Executor:
         it = s.iter
         # iteration domain
         hidden_arr = None
+        enum_index_name = None
         if isinstance(it, ast.Call) and isinstance(it.func, ast.Name) and it.func.id in ("range", "prange"):
             rargs = [to_int(self.ev(a, st, spec), a) for a in it.args]
             if len(rargs) == 1:
@@ -2019,13 +2082,20 @@ class Executor:
                 raise Unsupported("range step %s" % step, s)
             target = s.target
         else:
-            coll = self.ev(it, st, spec)
-            if isinstance(coll, VTuple):
+            enum = isinstance(it, ast.Call) and isinstance(it.func, ast.Name) and it.func.id == "enumerate" and len(it.args) == 1
+            enum_index_name = None
+            coll = self.ev(it.args[0] if enum else it, st, spec)
+            if isinstance(coll, VTuple) and not enum:
                 return self.unroll_for(s, coll.items, st, spec)
             if isinstance(coll, VRef) and st.heap[coll.cell].ndim == 1:
                 hidden_arr = coll
                 lo, hi, step = z3.IntVal(0), st.heap[coll.cell].shape[0], 1
                 target = s.target
+                if enum:
+                    if not (isinstance(target, ast.Tuple) and len(target.elts) == 2 and isinstance(target.elts[0], ast.Name)):
+                        raise Unsupported("enumerate target", s)
+                    enum_index_name = target.elts[0].id
+                    target = target.elts[1]
             else:
                 raise Unsupported("for over %r" % (coll,), s)
         if ls is None:
@@ -2039,6 +2109,8 @@ class Executor:
         if ls.kind != "for":
             raise ContractMismatch("loop #%d of %s: contract expects %s, code has for" % (k, self.c.key, ls.kind))
         ivar_name = ls.index if hidden_arr is not None else (target.id if isinstance(target, ast.Name) else None)
+        if hidden_arr is not None and enum_index_name is not None:
+            ivar_name = enum_index_name
         if ivar_name is None:
             raise Unsupported("for target", s)
 
@@ -2333,6 +2405,7 @@ class SpecCtx:
         dummy.types = {}
         dummy.native = None
         dummy.props = ()
+        dummy.options = {}
         self.ex = Executor.__new__(Executor)
         self.ex.c = dummy
         self.ex.mod = None
